@@ -63,11 +63,13 @@ def ref_kept(exons, strand, frames):
 
 
 def windows_all(exons, margin=1):
-    """Every (start, end) with start <= end over the CDS span widened by `margin`."""
+    """Every non-empty window (start < end) over the CDS span widened by `margin`, plus three empty ones."""
     lo, hi = max(0, exons[0][0] - margin), exons[-1][1] + margin
     for ws in range(lo, hi + 1):
-        for we in range(ws, hi + 1):
+        for we in range(ws + 1, hi + 1):
             yield ws, we
+    for p in sorted({lo, (lo + hi) // 2, hi}):
+        yield p, p
 
 
 def random_cds(rng, max_exons=6, max_len=12, gap_choices=(0, 0, 1, 2, 3, 7, 40), p_shift=0.45, first_max=20):
